@@ -249,6 +249,9 @@ pub enum Comp {
     If { op: CmpOp, a: Val, b: Val, res: CTy, then: Box<Comp>, els: Box<Comp> },
     WriteLine(Val, Box<Comp>),
     Exit(Val),
+    /// a closed function printed as an `@[monadic]` block instantiated at the identity monad and applied to `args`
+    /// (C20); semantically the application of `body` to `args`
+    Monadic { body: Box<Comp>, ty: CTy, args: Vec<(Val, VTy)> },
 }
 
 #[derive(Clone, Debug)]
